@@ -255,8 +255,10 @@ def selftest(chk):
     spec = P.gen_module(rng, 'st0', d1=False)
     runs = [P.gen_data(rng, spec, 1 + (r % 3), r) for r in range(3)]
     jobs = [dict(jid='st-base', spec=spec, runs=runs),
-            dict(jid='st-hij', spec=spec, runs=runs, mutate='hij'),
-            dict(jid='st-swap', spec=spec, runs=runs, mutate='swap')]
+            dict(jid='st-hij', spec=dict(spec, mid='st1'), runs=runs,
+                 mutate='hij'),
+            dict(jid='st-swap', spec=dict(spec, mid='st2'), runs=runs,
+                 mutate='swap')]
     lines = run_driver(chk, 'probe', jobs, 'st', 3)
     recs = [json.loads(l) for l in lines]
     base = [r for r in recs if r['jid'] == 'st-base']
@@ -294,11 +296,10 @@ def selftest(chk):
     f = os.path.join(chk.scratch, 'st_batch.ndjson')
     write_lines(f, recs + [c1, c2, c3, c4, cls_ok, cls_bad, cls_tol, cls_in])
     verdicts, _ = validate('TraceEvalData', 'TraceEvalData.cfg', [f], 1)
+    jid_of = dict((r['id'], r['jid']) for r in recs)
     by = {}
-    for v, r in zip(verdicts, recs + [c1, c2, c3, c4, cls_ok, cls_bad,
-                                      cls_tol, cls_in]):
-        by.setdefault(r.get('jid', '') if r['id'] == v['id'] and
-                      r['id'].startswith('st0/') else v['id'], []).append(v)
+    for v in verdicts:
+        by.setdefault(jid_of.get(v['id'], v['id']), []).append(v)
     want = [
         ('unmutated runs accepted', all(v['ok'] for v in by['st-base'])),
         ('corrupted impl value rejected', not by['corrupt-impl'][0]['impl_ok']
@@ -370,9 +371,9 @@ def run():
     s2_jobs, s2_plan = plan_stage2(listing, sz, chk.seed)
     quick = chk.tier == 'quick'
     f1 = pool.submit(run_driver, chk, 'probe', s1_jobs, 's1',
-                     6 if quick else 10)
+                     6 if quick else 8)
     f2 = pool.submit(run_driver, chk, 'classes', s2_jobs, 's2',
-                     6 if quick else 10)
+                     6 if quick else 8)
     f3 = pool.submit(run_driver, chk, 'order', or_jobs, 'or', 2)
     l1, l2, l3 = f1.result(), f2.result(), f3.result()
 
